@@ -82,7 +82,14 @@ var core = []scope{
 	// hosts spelt with the letters of URL schemes (oci://, https://, docker://), next to the
 	// hosts that are left when such letters are stripped from the front
 	sc("icr.io", "", "a"), sc("r.io", "", "a"), sc("cgr.dev", "", "a"), sc("gr.dev", "", "a"), sc("oci.reg.io", "", "a"), sc("docker.io", "", "a"),
+	// long repository paths (a reference is this plus '@' plus a digest of 71 to 135 characters;
+	// no rule bounds the total): 130, 200 and 300 characters of path
+	sc("reg.io", "", long(30), long(30), long(30), long(37)), sc("reg.io", ":5000", long(50), long(50), long(50), long(47)), sc("reg.io", "", long(100), long(100), long(98)),
 }
+
+func long(n int) string { return strings.Repeat("a", n-1) + "b" }
+
+var _ = long
 
 var (
 	domPool  = []string{"reg.io", "REG.io", "Reg.io", "reg.i", "reg.io.x", "eg.io", "xreg.io", "reg-io", "localhost", "reg",
